@@ -129,3 +129,27 @@ def raw_bytes(r, n):
 def content_for_mode(r, mode, n):
     """Content whose automatically chosen mode is `mode` with n characters (hanzi: needs mode='hanzi')."""
     return {'numeric': digits, 'alphanumeric': alnum, 'byte': latin1, 'kanji': kanji, 'hanzi': hanzi}[mode](r, n)
+
+
+def eci_boundary_calls(call, quick=True):
+    """ECI sizing at the capacity boundaries: the bits reserved by the version search must be the bits written.
+    (a) alias spellings of the encodings, single part, every byte length 1..60 (crosses 1-L .. 4-L, 1-M .. 5-M)
+    (b) several byte parts with the same / different non-default encodings separated by a part of another mode: one ECI header per byte segment"""
+    calls = []
+    top = 60 if quick else 140
+    for enc in ('latin1', 'L1', 'ISO-8859-1', 'iso8859_1', 'utf-8', 'UTF8', 'iso-8859-15', 'cp1252'):
+        for n in range(1, top):
+            if quick and enc not in ('latin1', 'UTF8') and n % 3:
+                continue
+            txt = 'a' * n
+            calls.append(call('make', txt, encoding=enc, eci=True, error='L', boost_error=False))
+            if n % 4 == 0:
+                calls.append(call('make', txt, encoding=enc, eci=True, error='M'))
+                calls.append(call('make', txt, encoding=enc, eci=True, version=(n + 12) // 14 + 1, error='L'))
+    for k in range(0, top):
+        calls.append(call('make', ['\xe4', 123, '\xf6' + 'a' * k], encoding='utf-8', eci=True, error='L', boost_error=False))
+        if k % 3 == 0 or not quick:
+            calls.append(call('make', ['\xe4', 'AB', '\xf6' + 'a' * k, 7, '\xfc'], encoding='utf-8', eci=True))
+            calls.append(call('make', [('\xe4', None, 'utf-8'), 123, ('\xf6' + 'a' * k, None, 'iso-8859-15')], eci=True, error='L'))
+            calls.append(call('make', ['\xe4', 123, '\xf6' + 'a' * k], encoding='utf-8', eci=True, version=(k + 30) // 16 + 1, error='L'))
+    return calls
